@@ -145,7 +145,7 @@ def sincos_input(enc, name, mult=1):
     return enc._multiple(s, c, int(mult * at["L"]))
 
 
-def path_feasible(enc, extra=(), timeout_ms=5000):
+def path_feasible(enc, extra=(), timeout_ms=5000, rlimit=0, max_chars=60000):
     """False only if the executed path's condition (plus `extra` constraints) is UNSATISFIABLE over the reals: such a path was
     followed by the double execution through comparisons that are ties in exact arithmetic (typically a flip model sitting exactly on
     a decision boundary); it is not a path of the real-number semantics and every obligation on it would be vacuous."""
@@ -156,7 +156,9 @@ def path_feasible(enc, extra=(), timeout_ms=5000):
     q = Query(enc, "path feasible", pc, [])
     smt, names = q.smt()
     smt = smt.replace("(assert (not true)) ; negated goal: path feasible", "").replace("(assert (not true))", "")
-    r, _, _ = run_z3(smt, names, rlimit=0, seed=5, timeout_ms=timeout_ms)
+    if len(smt) > max_chars:
+        return True         # too large to ask cheaply: treated as feasible (obligations are then checked as usual)
+    r, _, _ = run_z3(smt, names, rlimit=rlimit, seed=5, timeout_ms=timeout_ms)
     return r != "unsat"
 
 
